@@ -30,7 +30,13 @@ pub fn check_stream(prop: &str, m: &MDesc, par: &Par, xs: &[In], tag: &str, seed
 	let mut res = StreamResult { steps: 0, exempt: 0, max_used: 0.0, failed: false };
 	r.case_named(m.name, &[crate::reg::json_hash(&par.show()), crate::reg::ins_hash(xs)]);
 	let len = par.len();
+	// "init-not-refed": the instance is built from xs[0] and the stream continues with xs[1] (the construction value is
+	// not fed again as the first input - what a seed taken from the wrong field of the first input hides behind)
+	let skip_first = tag == "init-not-refed";
 	for (i, x) in xs.iter().enumerate() {
+		if skip_first && i == 0 {
+			continue;
+		}
 		let out = match guard(|| inst.next(x)) {
 			Ok(o) => o,
 			Err(_) => return Some(res), // panics are C10's concern
@@ -106,6 +112,12 @@ fn run_for(prop: &str, names: &[&str], ctx: &Ctx, r: &mut Report) {
 					r.cell(&format!("{name}:class:{}", gen::VALUE_CLASSES[class % 10]));
 					let lb = if len <= 8 { format!("{len}") } else if len <= 32 { "9-32".into() } else if len <= 128 { "33-128".into() } else { "129-254".into() };
 					r.cell(&format!("{name}:len:{lb}"));
+				}
+				if k % 3 == 0 {
+					if let Some(res) = check_stream(prop, &m, &par, &xs, "init-not-refed", seed, class, r) {
+						r.eval(res.steps);
+						r.cell(&format!("{name}:init-not-refed"));
+					}
 				}
 			}
 		}
